@@ -60,9 +60,34 @@ CHECKS['C04'] = dict(
     note='One assigned attribute per object (components are concatenated independently); floats and date-times are concrete '
          'examples; objects are constructed outside tracing from concrete arguments; kint/kfloat shims justified by lemma K4.')
 
+CHECKS['C07'] = dict(
+    text='Copy-number step over four objects with symbolic names (every equality pattern of names decided by the solver); one '
+         'identity (symbolic origin, copy, name length) proved to be written identically in the object header, an OBNAME value, '
+         'an OBJREF value and at the head of frame-data and no-format records; every reference attribute x every item class '
+         'accepts exactly its admissible class and stores the object passed; origin numbering with two symbolic explicit/default '
+         'references and a zone added before/between/after; uniqueness across sets of one type (known finding F6 excluded by '
+         'predicate and decided separately by an existence obligation).',
+    note='Explicit origin references naming no ORIGIN are accepted by design and not asserted. F6 (same name in two sets of one '
+         'type) is a recorded known finding.')
+CHECKS['C09'] = dict(
+    text='The real DLISFile.generator over real LogicalFile objects built by real add_* calls in all 24 orders x named sets x 1-2 '
+         'origins yields header (one object), ORIGIN set with the defining origin first, every other set once and non-empty, then '
+         'no-format records in call order, then frame data; the FILE-HEADER record is parsed by the component grammar with the '
+         'sequence number proved right-justified in 10 by digit arithmetic and the id left-justified in 65; construction-time '
+         'rejections over all integers; set registry step from all 64 states; FILE-ID / FILE-SET-NUMBER / clock / RNG use.',
+    note='Frame data is represented by an iterable stub in the order obligation (its own structure is C03). RNG and clock are '
+         'nondeterministic stubs.')
+CHECKS['C17'] = dict(
+    smt=True,
+    text='Context manager/decorator: any initial flag, nesting <= 3, exception at any level => True inside, restored after. Name '
+         'rule with a fully symbolic string (len <= 3, any code point) against a character-wise oracle, and the regular-language '
+         'equality HC_STRING_PATTERN == [A-Z0-9_-]+ for ALL lengths on three solvers; the three name entry points; soft enum '
+         'converters and the attributes wired to them x mode; channel/frame incidence matrices x mode; sequential file-set numbers.',
+    note='Signed-integer data and non-uniform spacing in the mode depend on numpy results and are decided with C08/C13.')
+
 NOT_APPLICABLE = [
     {'property_id': p, 'reason': 'check under construction in this round (see DESIGN.md section 4); not claimed yet'}
-    for p in ['C03', 'C05', 'C07', 'C08', 'C09', 'C11', 'C12', 'C13', 'C14', 'C17',
+    for p in ['C03', 'C05', 'C08', 'C11', 'C12', 'C13', 'C14', 
               'C18', 'C19', 'C20']
 ]
 
